@@ -6,7 +6,7 @@
    signature term under honest material occurring in l is one of those (Dolev-Yao).  The key tag is
    a free field of every key, so each statement holds for every tag assignment (collisions
    included); [nrank] (Go's string order) and the record order are universally quantified. *)
-From Sdns Require Import Common.Base Gen.C01 C01.Model C01.Proofs_sig C01.Proofs_chain C01.Proofs_f9 C01.Proofs_top.
+From Sdns Require Import Common.Base Gen.C01 C01.Model C01.Proofs_sig C01.Proofs_chain C01.Proofs_f9 C01.Proofs_top C01.Proofs_deleg.
 Open Scope N_scope.
 
 (* VerifyDS: success means a supported DS of the parent's set is the digest of a key of the child's
@@ -101,21 +101,27 @@ Print Assumptions anchor_ds_authentic.
 
 (* answer_ad_sound: AD=1 ⇒ an ancestor signer exists and every Answer record that is not a signature or a
    correct DNAME synthesis lies in that signer's zone inside an RRset the signer signed in exactly that
-   composition and validity window.  Hypotheses: the Dolev-Yao world (nobody forges under a zone's material;
-   zones sign DNSKEY RRsets of their own keys), honest anchors, the store's DNSKEY answers went through
-   verifyDNSSEC ([chain_sound]) — and ONE hypothesis the code does not establish: the DS set that findDS
-   hands back for the signer is authentic.  That is exactly finding unsigned-ds-trust-link (DESIGN §6 F9):
-   when signer <> owner of the DS set in hand, findDS takes the DS RRset out of a sub-query answer without
-   asking whether that answer was authenticated; [answer_ad_sound_needs_ds_provenance_refuted] below shows the
-   hypothesis cannot be dropped. *)
+   composition and validity window.  Hypotheses, by source of the DS set that authenticated the signer:
+     anchor      — the configured anchors are honest;
+     inherited   — the DS set in hand is authentic for the zone it names (the descent's invariant:
+                   [chain_sound_depth], [referral_ds_authentic]);
+     store       — DNSKEY answers in the store went through verifyDNSSEC ([chain_sound]); a DS answer stored
+                   WITH AD is authentic (this theorem, one level down);
+     F9          — the ONLY thing the code does not supply: when findDS fetches the DS RRset for a signer other
+                   than the owner of the DS set in hand, the answer it takes it from carried AD.
+   [answer_ad_sound_needs_ds_provenance_refuted] shows the F9 hypothesis cannot be dropped (finding
+   unsigned-ds-trust-link, DESIGN §6 F9, still open). *)
 Theorem answer_ad_sound : forall (honest : name -> N -> Prop) (zsigned : name -> signed -> Prop) E qname qtype cd resp0 pds zone m,
   let resp := bailiwick zone resp0 in
   (forall z l, unforgeable (honest z) (zsigned z) l) ->
   (forall z l, publishes_own_keys (honest z) (zsigned z) l) ->
   (forall k, In k (e_anchors E) -> honest [] (k_mat k)) ->
+  (forall d rest, pds = d :: rest -> forall d' k, In d' pds -> ds_binds d' k -> honest (r_owner d) (k_mat k)) ->
   (forall z km, e_key E z = LMsg km -> forall k, In k (keys_of_msg z km) -> honest z (k_mat k)) ->
-  (forall s ds, find_ds E (Some s) qname pds false = Ok ds ->
-     forall d k, In d ds -> ds_binds d k -> honest s (k_mat k)) ->
+  (forall z dm, e_ds E z false = LMsg dm -> m_ad dm = true ->
+     forall d k, In d (extract (m_ans dm) (Some z) T_DS) -> ds_binds d k -> honest z (k_mat k)) ->
+  (forall s d rest dm, pds = d :: rest -> r_owner d <> s -> e_ds E s false = LMsg dm ->
+     extract (m_ans dm) (Some s) T_DS <> [] -> m_ad dm = true) ->
   dname_target resp = None ->
   validate_answer E qname qtype cd resp0 pds zone = Accept m -> m_ad resp0 = false -> m_ad m = true ->
   exists s, in_zone qname s = true /\
@@ -123,7 +129,7 @@ Theorem answer_ad_sound : forall (honest : name -> N -> Prop) (zsigned : name ->
     forall r, In r (m_ans resp) -> is_sig r = false -> is_synth dn r = false ->
       in_zone (r_owner r) s = true /\
       exists set, vouched_set (zsigned s) (e_now E) s (m_ans resp) (m_ns resp) dn r set.
-Proof. exact answer_ad_sound_lemma. Qed.
+Proof. exact answer_ad_sound_min_lemma. Qed.
 Print Assumptions answer_ad_sound.
 
 (* ... without that hypothesis — "AD=1 ⇒ the DS set that authenticated the signer's keys is the inherited one,
@@ -167,6 +173,55 @@ Theorem insecure_needs_validated_proof : forall E zone qname pds,
   exists signer ds child m, lookup_ds E child true = Ok m /\ verify_dnssec E signer m ds = (true, None).
 Proof. exact insecure_needs_validated_proof_lemma. Qed.
 Print Assumptions insecure_needs_validated_proof.
+
+(* validateDelegation: every way a DS set can be handed to the child zone (six, exhaustive) *)
+Theorem validate_delegation_reasons : forall E resp q pds zone ds,
+  validate_delegation E false resp q pds zone = Ok ds ->
+  (e_dnssec E = true -> e_anchors E <> []) /\
+  exists eds, effective_ds E pds zone = Ok eds /\ deleg_reason E resp q pds zone eds ds.
+Proof. exact validate_delegation_inv. Qed.
+Print Assumptions validate_delegation_reasons.
+
+(* "a zone is treated as unsigned only on a validated proof that its parent holds no usable DS": under a parent
+   with a usable DS set the child comes out with an EMPTY DS set only with a validated denial (in the referral
+   or fetched), or because the signer named in the referral has no usable DS itself *)
+Theorem insecure_child_needs_proof : forall E resp q pds zone,
+  validate_delegation E false resp q pds zone = Ok [] ->
+  forall eds, effective_ds E pds zone = Ok eds -> has_supported_ds eds = true ->
+  (exists s dss k b, verify_dnssec E s resp dss = (true, None) /\ e_orc E k (m_id resp) q s = OOk b) \/
+  (exists ins, authenticated_delegation_ds E (parent_signer zone) q eds = Ok ([], ins)) \/
+  (exists s, In s (find_signers (e_nrank E) (m_ns resp) q false) /\ in_zone q s = true /\
+     ((find_ds E (Some s) q eds false = Ok [] /\ is_zone_secure E q eds zone = false) \/
+      exists dss, find_ds E (Some s) q eds false = Ok dss /\ dss <> [] /\ verify_dnssec E s resp dss = (false, None))).
+Proof. exact insecure_child_needs_proof. Qed.
+Print Assumptions insecure_child_needs_proof.
+
+(* the DS set a signed referral hands down is authentic for the child (the descent's invariant, one hop) *)
+Theorem referral_ds_authentic : forall (honest : name -> N -> Prop) (zsigned : name -> signed -> Prop),
+  (forall z l, unforgeable (honest z) (zsigned z) l) ->
+  (forall z c a lb o e i t sg ow cl rds, zsigned z (Signed c a lb o e i t sg ow cl rds) -> c = T_DS ->
+      forall d k, In (r_id d) rds -> r_type d = T_DS -> ds_binds d k -> honest (r_owner d) (k_mat k)) ->
+  forall E resp q s dss,
+  m_qtype resp <> T_DNSKEY -> in_zone q s = true ->
+  (forall km, e_key E s = LMsg km -> forall k, In k (keys_of_msg s km) -> honest s (k_mat k)) ->
+  ds_authentic honest s dss ->
+  verify_dnssec E s resp dss = (true, None) ->
+  ds_authentic honest q (extract (m_ns resp) (Some q) T_DS).
+Proof. exact referral_ds_authentic_lemma. Qed.
+Print Assumptions referral_ds_authentic.
+
+(* authority(): AD on a negative response rests on an ancestor signer, a non-empty DS set, verifyDNSSEC's
+   acceptance and a denial the verifier of its family accepted (for NSEC3: as fully authenticated, no opt-out) *)
+Theorem negative_ad_rests_on_validated_denial : forall E qname qtype resp pds zone m,
+  validate_negative E qname qtype false resp pds zone = Accept m -> m_ad resp = false -> m_ad m = true ->
+  (e_dnssec E = true -> e_anchors E <> []) /\
+  exists s ds, In s (find_signers (e_nrank E) (m_ns resp) qname false) /\ in_zone qname s = true /\
+    find_ds E (Some s) qname pds false = Ok ds /\ ds <> [] /\ verify_dnssec E s resp ds = (true, None) /\
+    ((m_rcode resp =? RC_NXDOMAIN) || ((m_rcode resp =? 0) && match m_ans resp with [] => true | _ => false end) = true ->
+       exists k, e_orc E k (m_id resp) qname s = OOk true \/
+                 ((k = K_NXDN \/ k = K_NODATAN) /\ exists b, e_orc E k (m_id resp) qname s = OOk b)).
+Proof. exact negative_ad_lemma. Qed.
+Print Assumptions negative_ad_rests_on_validated_denial.
 
 (* tamper_servfail: the tamper operators are an inductive type closed under composition (drop, inject
    adversary-made records, edit any field keeping or replacing the signature octets, duplicate, reorder);
